@@ -70,6 +70,14 @@ HEADER_EXPECT = {
 }
 
 
+def _hist_with(st, op):
+    """history ending with `op` exactly once (oracles run both before and after the op is appended)"""
+    h = [list(o) for o in st.hist]
+    if st.pending is not True:
+        h.append(list(op))
+    return h
+
+
 def hdr_of(h):
     return (bytes(h.h1).rstrip(b"\0"), bytes(h.h2), bytes(h.b0))
 
@@ -87,7 +95,7 @@ def exc_name(e):
 # layer U
 # =================================================================================================
 class UState:
-    __slots__ = ("path", "handles", "hmode", "model", "header", "hist", "exists")
+    __slots__ = ("path", "handles", "hmode", "model", "header", "hist", "exists", "pending")
 
     def __init__(self, path):
         self.path = path
@@ -117,7 +125,7 @@ class USys:
         if self.quiet:
             raise HarnessError(f"violation while replaying a validated prefix: {symptom} {what} hist={st.hist}")
         sig = f"U:{self._opclass(op)}:{symptom}"
-        self.ctx.violation(sig, what, {"layer": "U", "history": st.hist + [list(op)], "nh": self.nh, "extra": extra})
+        self.ctx.violation(sig, what, {"layer": "U", "history": _hist_with(st, op), "nh": self.nh, "extra": extra})
 
     def _opclass(self, op):
         if op[0] == "put":
@@ -214,6 +222,7 @@ class USys:
     def step(self, st, op):
         ctx = self.ctx
         kind = op[0]
+        st.pending = False
         pre_bytes = self.file_bytes()
         pre_view = None
         ok = True
@@ -249,6 +258,7 @@ class USys:
             except Exception as e:
                 self.viol(st, op, "open-raised", f"open({mode}) raised {exc_name(e)}: {e}")
                 st.hist.append(list(op))
+                st.pending = True
                 return False
         elif kind == "close":
             _, name = op
@@ -284,6 +294,7 @@ class USys:
         else:  # pragma: no cover
             raise HarnessError(f"unknown op {op}")
         st.hist.append(list(op))
+        st.pending = True
         if ok:
             ok = self._check_views(st, op)
         return ok
@@ -426,7 +437,7 @@ CKEYCLASS = {"a": "plain", "b": "plain", "empty": "empty", "k255": "max255", "k2
 
 
 class CState:
-    __slots__ = ("handles", "cfg", "sess", "cm", "model", "hist", "pending", "exists")
+    __slots__ = ("handles", "cfg", "sess", "cm", "model", "hist", "pending", "exists", "by", "bycfg", "bysess", "bycm", "bymodel")
 
     def __init__(self):
         self.handles = {}  # name -> Collection
@@ -436,6 +447,14 @@ class CState:
         self.model = {}
         self.hist = []
         self.exists = False
+        self.by = None  # the bystander: a Collection on ANOTHER file used by the same process
+        self.bycfg = None
+        self.bysess = None
+        self.bycm = None
+        self.bymodel = {}
+
+
+ACCESSORS = ("items", "values", "iter", "len", "contains", "n_items", "getitem")
 
 
 class CSys:
@@ -446,12 +465,22 @@ class CSys:
     ("exit", h)                  clean __exit__
     ("exitx", h)                 __exit__ with an exception raised by the body
     ("set", h, key, val)         c[key] = val
+    ("set", h, key, val, acc)    the same, and accessor `acc` is the FIRST thing called afterwards (the full
+                                 comparison that follows every step starts with keys() and c[k], which may
+                                 themselves bring the handle up to date)
+    ("enter", h, m, acc)         likewise for the first accessor inside a new session
+    ("bnew", buf) ("benter", m) ("bset", key) ("bexit",)
+                                 a bystander library on another path, used by the same process while sessions
+                                 on the library under test are open (the canonical `with src.reading(),
+                                 dst.writing():` pattern); it has its own reference model
     """
 
     BUFS = {"dflt": -1, "zero": 0, "small": 4, "large": 10**6}
 
-    def __init__(self, ctx, nhandles=2, keys=None, vals=None, bufs=None, label="C", hdr_kw=None):
+    def __init__(self, ctx, nhandles=2, keys=None, vals=None, bufs=None, label="C", hdr_kw=None, first_acc="buffered", bystander=False):
         self.ctx = ctx
+        self.first_acc = first_acc  # None | "buffered" (one value per key, handles that queue) | "all"
+        self.bystander = bystander
         self.hdr_kw = hdr_kw  # header fields given when the first handle creates the file
         self.nh = nhandles
         self.keys = keys or list(CKEYS)
@@ -460,16 +489,19 @@ class CSys:
         self.dir = Path(ctx.scratch) / f"coll-{label}-{os.getpid()}"
         self.dir.mkdir(parents=True, exist_ok=True)
         self.path = self.dir / "lib.mlib"
+        self.bypath = self.dir / "bystander.mlib"
         self.quiet = False
 
     def viol(self, st, op, symptom, what, extra=None):
         if self.quiet:
             raise HarnessError(f"violation while replaying a validated prefix: {symptom} {what} hist={st.hist}")
+        if st.by is not None:
+            symptom += "[with-a-second-library-in-use]"
         buf = None
         if len(op) > 1 and op[1] in st.cfg:
             buf = st.cfg[op[1]][0]
         sig = f"C:{self._opclass(op)}:buf={buf}:{symptom}"
-        self.ctx.violation(sig, what, {"layer": "C", "history": st.hist + [list(op)], "nh": self.nh, "extra": extra})
+        self.ctx.violation(sig, what, {"layer": "C", "history": _hist_with(st, op), "nh": self.nh, "extra": extra})
 
     def _opclass(self, op):
         if op[0] == "set":
@@ -477,6 +509,12 @@ class CSys:
         if op[0] == "enter":
             return f"enter[{op[2]}]"
         return op[0]
+
+    def by_bytes(self):
+        try:
+            return self.bypath.read_bytes()
+        except FileNotFoundError:
+            return None
 
     def file_bytes(self):
         try:
@@ -499,6 +537,11 @@ class CSys:
     def dispose(self, st):
         import atexit
 
+        if st.by is not None:
+            st.handles["<by>"] = st.by
+            if st.bycm is not None:
+                st.cm["<by>"] = st.bycm
+            st.by = None
         for name, c in st.handles.items():
             be = c._backend
             be._write_queue.clear()
@@ -542,15 +585,43 @@ class CSys:
                 if not insess:
                     ops.append(("enter", n, "r"))
                     ops.append(("enter", n, "w"))
+                    if self.first_acc == "all":
+                        for m in "rw":
+                            if m == "w" and st.cfg[n][1]:
+                                continue
+                            for acc in ACCESSORS[:-1]:
+                                ops.append(("enter", n, m, acc))
             else:
                 ops.append(("exit", n))
                 ops.append(("exitx", n))
                 if s == "w":
+                    v0 = next(iter(self.vals))
                     for kn in self.keys:
                         for vn in self.vals:
                             ops.append(("set", n, kn, vn))
+                            k = CKEYS[kn]
+                            if k in st.model or len(k.encode()) > 255 or not self.first_acc:
+                                continue
+                            if self.first_acc == "all" or (vn == v0 and self.BUFS[st.cfg[n][0]] > 0):
+                                for acc in ACCESSORS:
+                                    ops.append(("set", n, kn, vn, acc))
                 elif st.cfg[n][1]:
                     ops.append(("set", n, "a", "x"))  # write through a read-only handle: must fail
+        if self.bystander and st.handles:
+            if st.by is None:
+                if not insess:
+                    ops.append(("bnew", "large"))
+                    ops.append(("bnew", "dflt"))
+            elif st.bysess is None:
+                ops.append(("benter", "w"))
+                ops.append(("benter", "r"))
+            else:
+                ops.append(("bexit",))
+                if st.bysess == "w":
+                    for kn in self.keys:
+                        k = CKEYS[kn]
+                        if k not in st.bymodel and len(k.encode()) <= 255:
+                            ops.append(("bset", kn))
         return ops
 
     # a view = what the public accessors of every handle currently *inside a session* show
@@ -579,10 +650,94 @@ class CSys:
             out.append((name, ks, tuple(got), n))
         return tuple(out)
 
+    def _first(self, st, op, name, acc, newkey=None):
+        """`acc` is the first accessor called after the operation; compared with the reference model"""
+        c, exp = st.handles[name], st.model
+        try:
+            if acc == "items":
+                good = dict(c.items()) == exp
+            elif acc == "values":
+                good = sorted(c.values()) == sorted(exp.values())
+            elif acc == "iter":
+                good = set(iter(c)) == set(exp)
+            elif acc == "len":
+                good = len(c) == len(exp)
+            elif acc == "contains":
+                good = all(k in c for k in exp)
+            elif acc == "n_items":
+                good = c.n_items == len(exp)
+            else:
+                good = newkey is None or c[newkey] == exp[newkey]
+        except Exception as e:
+            self.viol(st, op[:4] if op[0] == "set" else op[:3], f"first-accessor[{acc}]-raised", f"{acc} called first after the operation raised {exc_name(e)}: {e}")
+            return False
+        if not good:
+            self.viol(st, op[:4] if op[0] == "set" else op[:3], f"first-accessor[{acc}]-mismatch", f"{acc}, called first after the operation, disagrees with the successful puts")
+            return False
+        return True
+
+    def _by_step(self, st, op):
+        kind = op[0]
+        if kind == "bnew":
+            st.by = Collection(self.bypath, UkvCollectionBackend, bufsize=self.BUFS[op[1]], readonly=False)
+            st.bycfg = op[1]
+        elif kind == "benter":
+            cm = st.by.reading(timeout=0.2) if op[1] == "r" else st.by.writing(timeout=0.2)
+            cm.__enter__()
+            st.bycm, st.bysess = cm, op[1]
+        elif kind == "bexit":
+            cm, st.bycm, st.bysess = st.bycm, None, None
+            cm.__exit__(None, None, None)
+        else:
+            k = CKEYS[op[1]]
+            v = b"bystander:" + k.encode()
+            st.by[k] = v
+            st.bymodel[k] = v
+
+    def _check_by(self, st, op):
+        ok = True
+        if st.by is None:
+            return ok
+        if st.bysess:
+            try:
+                ks = set(st.by.keys())
+                got = {k: st.by[k] for k in ks}
+                its = dict(st.by.items())
+            except Exception as e:
+                self.viol(st, op, "second-library:read-raised", f"reading the second library inside its session raised {exc_name(e)}: {e}")
+                return False
+            if got != st.bymodel or its != st.bymodel:
+                self.viol(st, op, "second-library:view-differs", "the second library does not show exactly what was stored in it")
+                ok = False
+        else:
+            recs, _, clean = parse_ukv(self.by_bytes())
+            if not clean or {k.decode(): v for k, v in recs} != st.bymodel or len(recs) != len(st.bymodel):
+                self.viol(st, op, "second-library:file-records-differ", f"the second library's file holds {len(recs)} records; stored in it: {len(st.bymodel)}")
+                ok = False
+        return ok
+
     def step(self, st, op):
         kind = op[0]
         ok = True
+        st.pending = False
         pre_bytes = self.file_bytes()
+        acc = None
+        if kind == "set" and len(op) == 5 or kind == "enter" and len(op) == 4:
+            acc = op[-1]
+        if kind[0] == "b":
+            try:
+                self._by_step(st, op)
+            except Exception as e:
+                self.viol(st, op, "second-library:op-raised", f"{kind} on the second library raised {exc_name(e)}: {e}")
+                st.hist.append(list(op))
+                st.pending = True
+                return False
+            st.hist.append(list(op))
+            st.pending = True
+            if self.file_bytes() != pre_bytes:
+                self.viol(st, op, "changed-by-second-library", "an operation on another library changed this library's file")
+                return False
+            return self._check_views(st, op) and self._check_by(st, op)
         if kind == "new":
             _, name, b, ro = op
             try:
@@ -593,6 +748,7 @@ class CSys:
             except Exception as e:
                 self.viol(st, op, "constructor-raised", f"Collection(...) raised {exc_name(e)}: {e}")
                 st.hist.append(list(op))
+                st.pending = True
                 return False
             st.handles[name] = c
             st.cfg[name] = (b, ro)
@@ -605,12 +761,13 @@ class CSys:
             except Exception as e:
                 self.viol(st, op, "pickle-raised", f"pickling a Collection handle raised {exc_name(e)}: {e}")
                 st.hist.append(list(op))
+                st.pending = True
                 return False
             st.handles[name] = c
             st.cfg[name] = st.cfg[src]
             st.sess[name] = None
         elif kind == "enter":
-            _, name, m = op
+            _, name, m = op[:3]
             c = st.handles[name]
             ro = st.cfg[name][1]
             if m == "w" and ro:
@@ -623,6 +780,7 @@ class CSys:
                 else:
                     self.viol(st, op, "failing-op-succeeded", "writing() on a read-only handle did not raise")
                     st.hist.append(list(op))
+                    st.pending = True
                     return False
             else:
                 try:
@@ -631,6 +789,7 @@ class CSys:
                 except Exception as e:
                     self.viol(st, op, "enter-raised", f"{'reading' if m=='r' else 'writing'}() raised {exc_name(e)}: {e}")
                     st.hist.append(list(op))
+                    st.pending = True
                     return False
                 st.cm[name] = cm
                 st.sess[name] = m
@@ -655,7 +814,7 @@ class CSys:
                 ok = False
             st.sess[name] = None
         elif kind == "set":
-            _, name, kn, vn = op
+            _, name, kn, vn = op[:4]
             key, val = CKEYS[kn], self.vals[vn]
             c = st.handles[name]
             s = st.sess.get(name)
@@ -679,8 +838,13 @@ class CSys:
         else:  # pragma: no cover
             raise HarnessError(f"unknown op {op}")
         st.hist.append(list(op))
+        st.pending = True
+        if ok and acc and st.sess.get(op[1]):
+            ok = self._first(st, op, op[1], acc, CKEYS[op[2]] if kind == "set" else None)
         if ok:
             ok = self._check_views(st, op)
+        if ok and st.by is not None:
+            ok = self._check_by(st, op)
         return ok
 
     def _unchanged(self, st, op, pre_bytes, pre_view):
@@ -789,7 +953,12 @@ class CSys:
                 u = None
             hs.append((name, st.cfg[name], st.sess.get(name), be._state, tuple(be._write_queue), tuple(sorted(be._keys)), be._usedmem, be._readonly, u, seqx.extra_state(be, _BE_KNOWN), seqx.extra_state(st.handles[name], _COLL_KNOWN), seqx.extra_state(uf, _UKV_KNOWN) if uf is not None else None))
         fb = self.file_bytes()
-        return (hashlib.sha1(fb).hexdigest() if fb is not None else None, tuple(hs), tuple(sorted(st.model.items())))
+        by = None
+        if st.by is not None:
+            be = st.by._backend
+            bb = self.by_bytes()
+            by = (st.bycfg, st.bysess, be._state, tuple(be._write_queue), tuple(sorted(be._keys)), be._usedmem, hashlib.sha1(bb).hexdigest() if bb is not None else None, tuple(sorted(st.bymodel.items())), seqx.extra_state(be, _BE_KNOWN))
+        return (hashlib.sha1(fb).hexdigest() if fb is not None else None, tuple(hs), tuple(sorted(st.model.items())), by)
 
     def observe(self, st):
         return self.view(st)
@@ -849,7 +1018,11 @@ def run(ctx):
     cvals = {"e": b"", "x": b"x", "yy": b"yy"} if not thorough else vals
     layer("C_2handles_depth", lambda c: CSys(c, nhandles=2, keys=ckeys, vals=cvals, label="C2"), 7 if thorough else 5)
     # deeper with a reduced alphabet: stale handles need new+new+enter+set+exit+enter(other)+...
-    layer("C_reduced_alphabet_depth", lambda c: CSys(c, nhandles=3 if thorough else 2, keys=["a", "k256"], vals={"x": b"x"}, bufs=["dflt", "large"], label="C3"), 8 if thorough else 9)
+    # every accessor as the FIRST call after every put and every session entry
+    layer("C_first_accessor_depth", lambda c: CSys(c, nhandles=2, keys=["a", "b"], vals={"x": b"x"}, bufs=["dflt", "small", "large"], label="C6", first_acc="all"), 7 if thorough else 6)
+    layer("C_reduced_alphabet_depth", lambda c: CSys(c, nhandles=3 if thorough else 2, keys=["a", "k256"], vals={"x": b"x"}, bufs=["dflt", "large"], label="C3", first_acc=None), 8 if thorough else 9)
+    # a second library on another path used by the same process, sessions on both open at the same time
+    layer("C_with_second_library_depth", lambda c: CSys(c, nhandles=1, keys=["a", "b"], vals={"x": b"x"}, bufs=["dflt", "large"], label="C5", first_acc=None, bystander=True), 10 if thorough else 8)
     # header fields given at creation through the Collection constructor (each alone and together)
     for tag, kw in (("h2only", dict(comment="comment only")), ("b0only", dict(b0=b"\x07desc")), ("all", dict(h1=b"ML10Library", comment="c", b0=b"\x00d"))):
         layer("C_header_" + tag + "_depth", lambda c, kw=kw, tag=tag: CSys(c, nhandles=2, keys=["a", "k256"], vals={"x": b"x", "e": b""}, bufs=["dflt", "large"], label="C4" + tag, hdr_kw=kw), 8 if thorough else 7)
@@ -866,7 +1039,7 @@ def replay(ctx, case):
     if case["layer"] == "U":
         sm = USys(ctx, nhandles=case.get("nh", 2), keys=list(KEYNAMES), vals={**values(ctx), "big70k": big_value(ctx.seed)}, label="replay")
     else:
-        sm = CSys(ctx, nhandles=case.get("nh", 2), keys=list(CKEYS), vals={**values(ctx), "big70k": big_value(ctx.seed)}, label="replay")
+        sm = CSys(ctx, nhandles=case.get("nh", 2), keys=list(CKEYS), vals={**values(ctx), "big70k": big_value(ctx.seed)}, label="replay", bystander=True)
     hist = [tuple(o) for o in case["history"]]
     st = sm.build(hist[:-1])
     sm.step(st, hist[-1])
